@@ -149,10 +149,84 @@ def campaign_leaves(ctx):
 campaign_leaves.shards = (4, 8)
 
 
-CAMPAIGNS = {"roundtrip": campaign_roundtrip, "leaves": campaign_leaves}
+# ---------------------------------------------------------------------------------------------
+# list adapters and tuple results (not part of the spec grammar): definitions written out, then parse(build(v)) == v
+# ---------------------------------------------------------------------------------------------
+def adapters_oracle(ctx):
+    import collections
+
+    def oracle(case):
+        kind = case[0]
+        if kind == "indexing":
+            _, n, idx, empty, v = case
+            con = C.Indexing(C.Array(n, C.Byte), n, idx, empty=empty)
+            want = bytes([v if i == (idx % n) else empty for i in range(n)])
+            value, back = v, v
+        elif kind == "slicing":
+            _, n, start, stop, step, empty, lst = case
+            con = C.Slicing(C.Array(n, C.Byte), n, start, stop, step, empty=empty)
+            model = [empty] * n
+            model[start:stop:step] = lst
+            want = bytes(model)
+            value, back = lst, model[start:stop:step]
+        elif kind == "filter":
+            _, threshold, lst = case
+            con = C.Filter(C.obj_ >= threshold, C.GreedyRange(C.Byte))
+            kept = [x for x in lst if x >= threshold]
+            want = bytes(kept)
+            value, back = lst, kept
+        else:
+            _, shape, a, b = case
+            sub = {"seq": C.Sequence(C.Byte, C.Int16ub), "array": C.Array(2, C.Int16ub), "struct": C.Struct("a" / C.Byte, "b" / C.Int16ub), "grange": C.GreedyRange(C.Int16ub),
+                   "struct-permuted": C.Struct("a" / C.Byte, "b" / C.Int16ub)}[shape]
+            fields = "b a" if shape == "struct-permuted" else "a b"     # (with a Struct the fields are matched by name, in any order)
+            con = C.NamedTuple("T", fields, sub)
+            T = collections.namedtuple("T", fields)
+            value = T(a=a, b=b)
+            want = (bytes([a]) if shape in ("seq", "struct", "struct-permuted") else a.to_bytes(2, "big")) + b.to_bytes(2, "big")
+            back = value
+        ctx.record(case, True, ["adapters/" + kind])
+        b_ = call(con.build, value)
+        if not b_.ok or b_.value != want:
+            return Failure("C01/adapters/%s-build" % kind, "%s: build(%r) -> %r, by definition %s" % (case[:-1], value, b_, want.hex()))
+        p = call(con.parse, want)
+        got = list(p.value) if p.ok and kind in ("slicing", "filter") else (p.value if p.ok else None)
+        if not p.ok or got != back or (kind == "namedtuple" and (type(p.value).__name__ != "T" or p.value.a != value.a or p.value.b != value.b)):
+            return Failure("C01/adapters/%s-roundtrip" % kind, "%s: parse(build(%r)) -> %r, expected %r" % (case[:-1], value, p, back))
+        return None
+    return oracle
+
+
+@st.composite
+def adapters_cases(draw):
+    kind = draw(st.sampled_from(["indexing", "slicing", "filter", "namedtuple"]))
+    byte = st.integers(0, 255)
+    if kind == "indexing":
+        n = draw(st.integers(1, 6))
+        return [kind, n, draw(st.integers(-n, n - 1)), draw(byte), draw(byte)]
+    if kind == "slicing":
+        n = draw(st.integers(0, 7))
+        start = draw(st.integers(0, n))
+        stop = draw(st.one_of(st.none(), st.integers(start, n)))
+        step = draw(st.integers(1, 3))
+        k = len(range(n)[start:stop:step])
+        return [kind, n, start, stop, step, draw(byte), draw(st.lists(byte, min_size=k, max_size=k))]
+    if kind == "filter":
+        return [kind, draw(st.integers(0, 200)), draw(st.lists(byte, max_size=8))]
+    return [kind, draw(st.sampled_from(["seq", "array", "struct", "grange", "struct-permuted"])), draw(byte), draw(st.integers(0, 65535))]
+
+
+def campaign_adapters(ctx):
+    ctx.search(adapters_cases(), adapters_oracle(ctx), ctx.budget(3000, 40000))
+campaign_adapters.shards = (1, 4)
+
+
+CAMPAIGNS = {"roundtrip": campaign_roundtrip, "leaves": campaign_leaves, "adapters": campaign_adapters}
 
 
 def replay(campaign, case):
     class _C:
         def record(self, *a, **k): pass
+    if campaign == "adapters":
+        return adapters_oracle(_C())(case)
     return oracle_factory(_C())(case)
